@@ -29,7 +29,7 @@ type HistOp struct {
 	PK   int    `json:"pk,omitempty"`
 	Val  int    `json:"val,omitempty"`
 	Pick int    `json:"pick,omitempty"` // which recorded commit
-	Ref  int    `json:"ref,omitempty"`  // 0 hash, 1 tag, 2 branch
+	Ref  int    `json:"ref,omitempty"`  // 0 hash, 1 tag, 2 branch, 3 ancestor of a live branch (main~2)
 	Form int    `json:"form,omitempty"` // 0 AS OF, 1 revision database, 2 history table
 }
 
@@ -74,7 +74,11 @@ func (HIST) Generate(seed uint64, tier string) *core.Scenario {
 		case x < 74:
 			b.Ops = append(b.Ops, HistOp{Kind: "restart"})
 		default:
-			b.Ops = append(b.Ops, HistOp{Kind: "read", Br: br, Pick: r.Intn(1000), Ref: r.Intn(3), Form: r.Intn(3)})
+			rd := HistOp{Kind: "read", Br: br, Pick: r.Intn(1000), Ref: r.Intn(4), Form: r.Intn(3)}
+			if rd.Ref == 3 && r.Chance(1, 2) {
+				rd.Form = 1 // ancestor names mostly through the revision database name
+			}
+			b.Ops = append(b.Ops, rd)
 		}
 	}
 	raw, _ := json.Marshal(b)
@@ -311,6 +315,20 @@ func (HIST) Execute(t *testing.T, sc *core.Scenario) *core.Result {
 				ref, how = c.tags[op.Pick%len(c.tags)], "tag"
 			} else if op.Ref == 2 && len(c.heads) > 0 {
 				ref, how = c.heads[op.Pick%len(c.heads)], "branch"
+			} else if op.Ref == 3 {
+				// as the 1st..3rd ancestor of the reader's own branch: a name that means another commit
+				// every time the branch moves, and that the same session uses again and again
+				chain := []*hcommit{commits[0]}
+				for _, x := range commits[1:] {
+					if x.branch == op.Br {
+						chain = append(chain, x)
+					}
+				}
+				k := 1 + op.Pick%3
+				if len(chain)-1-k >= 0 {
+					c = chain[len(chain)-1-k]
+					ref, how = fmt.Sprintf("%s~%d", []string{"main", "b1"}[op.Br], k), "ancestor"
+				}
 			}
 			name := c.st.name
 			if !c.st.exists {
@@ -357,6 +375,7 @@ func (HIST) Execute(t *testing.T, sc *core.Scenario) *core.Result {
 					res.Violate("historical-read-differs", key, step, "%s returned\n%s\nbut commit %s (made at branch %d) held\n%s", q, indent(rowsKey(got)), c.hash, c.branch, indent(want))
 				} else {
 					res.Probe("historical_read_ok:" + form)
+					res.Probe("addressed_by:" + how)
 				}
 			}
 		}
